@@ -476,7 +476,9 @@ impl Target {
 
     pub(crate) fn is_grayscale_cleartype(&self) -> bool {
         match self {
-            Self::Smooth { mode, .. } => matches!(mode, SmoothMode::Normal | SmoothMode::Light),
+            // FreeType tests `load_flags & FT_LOAD_TARGET_LCD`, a bit test that
+            // FT_LOAD_TARGET_LIGHT satisfies too, so only the normal target counts.
+            Self::Smooth { mode, .. } => matches!(mode, SmoothMode::Normal),
             _ => false,
         }
     }
